@@ -33,16 +33,15 @@ inductive Next where
   | skip                    -- frame swallowed into the header-block buffer: iterate again
 deriving Repr, Inhabited
 
-/-- `_update_header_buffer` -/
-def updateHeaderBuffer (fb : FrameBuffer) (f : RFrame) : Except Exc (Option RFrame) × FrameBuffer :=
-  match fb.headersBuffer with
+/-- `_update_header_buffer` on the header-block backlog alone: result and new backlog -/
+def stepHeaderBuffer (hb : List Frame) (f : RFrame) : Except Exc (Option RFrame) × List Frame :=
+  match hb with
   | first :: _ =>
     match f.frame with
     | .continuation sid _ eh =>
-      if sid != first.sid then (.error (mkExc .ProtocolError), fb) else
-      let buf := fb.headersBuffer ++ [f.frame]
-      let fb := { fb with headersBuffer := buf }
-      if (buf.length : Int) > CONTINUATION_BACKLOG then (.error (mkExc .ProtocolError), fb) else
+      if sid != first.sid then (.error (mkExc .ProtocolError), hb) else
+      let buf := hb ++ [f.frame]
+      if (buf.length : Int) > CONTINUATION_BACKLOG then (.error (mkExc .ProtocolError), buf) else
       if eh then
         let block := buf.foldl (fun acc x => acc ++ (match x with
           | .headers _ b .. => b | .pushPromise _ _ b .. => b | .continuation _ b _ => b | _ => [])) []
@@ -50,14 +49,18 @@ def updateHeaderBuffer (fb : FrameBuffer) (f : RFrame) : Except Exc (Option RFra
           | .headers s _ es _ pad prio => .headers s block es true pad prio
           | .pushPromise s p _ _ pad => .pushPromise s p block true pad
           | x => x
-        (.ok (some { frame := joined }), { fb with headersBuffer := [] })
-      else (.ok none, fb)
-    | _ => (.error (mkExc .ProtocolError), fb)
+        (.ok (some { frame := joined }), [])
+      else (.ok none, buf)
+    | _ => (.error (mkExc .ProtocolError), hb)
   | [] =>
     match f.frame with
-    | .headers _ _ _ false _ _ => (.ok none, { fb with headersBuffer := [f.frame] })
-    | .pushPromise _ _ _ false _ => (.ok none, { fb with headersBuffer := [f.frame] })
-    | _ => (.ok (some f), fb)
+    | .headers _ _ _ false _ _ => (.ok none, [f.frame])
+    | .pushPromise _ _ _ false _ => (.ok none, [f.frame])
+    | _ => (.ok (some f), [])
+
+/-- `_update_header_buffer` -/
+def updateHeaderBuffer (fb : FrameBuffer) (f : RFrame) : Except Exc (Option RFrame) × FrameBuffer :=
+  ((stepHeaderBuffer fb.headersBuffer f).1, { fb with headersBuffer := (stepHeaderBuffer fb.headersBuffer f).2 })
 
 /-- one step of `__next__` (without the recursion on a swallowed frame) -/
 def next1 (fb : FrameBuffer) : Except Exc Next × FrameBuffer :=
